@@ -49,6 +49,7 @@ type ConcCase struct {
 	Kind    string `json:"kind"` // "conc"
 	Engine  string `json:"engine"`
 	Procs   int    `json:"procs"`
+	COD     bool   `json:"close_on_context_done,omitempty"`
 	Setup   []Op   `json:"setup"`
 	Threads [][]Op `json:"threads"`
 	History []HOp  `json:"history,omitempty"`
@@ -68,7 +69,7 @@ type HOp struct {
 func (h HOp) String() string {
 	tg := ""
 	switch h.Op.K {
-	case kClose, kCloseC, kIsClosed, kCall:
+	case kClose, kCloseC, kIsClosed, kCall, kCallCtx:
 		tg = fmt.Sprintf(" [instance %d]", h.Target)
 	}
 	return fmt.Sprintf("[%4d,%4d] t%-2d #%-3d %s%s -> %s", h.Call, h.Ret, h.T, h.I, h.Op, tg, h.Res)
@@ -143,7 +144,7 @@ func tailOps(c *ConcCase, base int) []Op {
 func runConc(c *ConcCase) (*concResult, error) {
 	total := c.numOps()
 	tail := tailOps(c, total)
-	e, err := newEnv(c.Engine, total+len(tail))
+	e, err := newEnv(c.Engine, total+len(tail), c.COD)
 	if err != nil {
 		return nil, err
 	}
@@ -218,7 +219,7 @@ func runConc(c *ConcCase) (*concResult, error) {
 			if !r.h.Res.Skip && r.h.Res.Panic == "" {
 				r.h.Res.Inst = e.resolve(r.raw)
 			}
-		case kClose, kCloseC, kIsClosed, kCall:
+		case kClose, kCloseC, kIsClosed, kCall, kCallCtx:
 			if !r.h.Res.Skip {
 				r.h.Target = e.resolve(r.raw)
 			}
@@ -419,11 +420,33 @@ var strictModel = porcupine.Model{
 	Equal: func(a, b interface{}) bool { return a.(strictState) == b.(strictState) },
 }
 
-// instNames maps instance id -> effective name for every successful instantiation.
+// registered: the instantiation got as far as registering the instance (it returned a module,
+// or one of its start functions ended with an exit or another failure).
+func registered(h HOp) bool {
+	if (h.Op.K != kInst && h.Op.K != kHostInst) || h.Res.Panic != "" || h.Res.Skip {
+		return false
+	}
+	return h.Res.Err == "" || h.Res.Kind == wz.KExit || h.Res.Kind == kindStartFailed
+}
+
+// selfClosing: a registered instantiation whose start function does not return normally
+// closes its instance before InstantiateModule returns; code is the exit code it uses.
+func selfClosing(h HOp) (bool, uint32) {
+	sp, ok := startSpec[h.Op.Start]
+	if !ok || h.Op.K != kInst || sp.kind == stOK || !registered(h) {
+		return false, 0
+	}
+	if sp.kind == stSelf {
+		return true, sp.code
+	}
+	return true, 0
+}
+
+// instNames maps instance id -> effective name for every registered instantiation.
 func instNames(hist []HOp) map[int]string {
 	m := map[int]string{}
 	for _, h := range hist {
-		if (h.Op.K == kInst || h.Op.K == kHostInst) && h.Res.Err == "" && h.Res.Panic == "" && !h.Res.Skip {
+		if registered(h) {
 			m[h.I] = h.Op.effName()
 		}
 	}
@@ -456,10 +479,19 @@ func porcupineOps(hist []HOp, strict bool) []porcupine.Operation {
 		}
 		switch h.Op.K {
 		case kInst, kHostInst:
-			add(h, pIn{k: pInst, name: nameIdx(h.Op.effName()), id: int16(h.I)}, pOut{ok: h.Res.Err == ""})
+			add(h, pIn{k: pInst, name: nameIdx(h.Op.effName()), id: int16(h.I)}, pOut{ok: registered(h)})
+			if sc, _ := selfClosing(h); sc {
+				// registered, then closed again inside the same call
+				if strict {
+					add(h, pIn{k: pCloseAtomic, id: int16(h.I), name: nameIdx(names[h.I])}, pOut{})
+				} else {
+					add(h, pIn{k: pMark, id: int16(h.I), dn: dense[h.I], op: int16(h.I)}, pOut{})
+					add(h, pIn{k: pUnlink, id: int16(h.I), dn: dense[h.I], op: int16(h.I), name: nameIdx(names[h.I])}, pOut{})
+				}
+			}
 		case kLookup:
 			add(h, pIn{k: pLookup, name: nameIdx(h.Op.Name)}, pOut{id: int16(h.Res.Inst)})
-		case kClose, kCloseC:
+		case kClose, kCloseC, kCallCtx:
 			if h.Target < 0 {
 				continue
 			}
@@ -553,12 +585,23 @@ func flagRules(hist []HOp, counts []attemptCounts) string {
 		}
 		var ob []obs
 		for _, h := range hist {
+			if h.I == id {
+				if sc, code := selfClosing(h); sc {
+					closes = append(closes, closer{call: h.Call, ret: h.Ret, code: code, desc: h.String()})
+				}
+			}
 			if h.Target != id || h.Res.Skip || h.Res.Panic != "" {
 				continue
 			}
 			switch h.Op.K {
 			case kClose, kCloseC:
 				closes = append(closes, closer{call: h.Call, ret: h.Ret, code: h.Op.closeCode(), desc: h.String()})
+			case kCallCtx:
+				closes = append(closes, closer{call: h.Call, ret: h.Ret, code: ctxCode(h.Op.Var), desc: h.String()})
+				if h.Res.Kind != wz.KExit {
+					return fmt.Sprintf("instance %d: a call whose context was done did not return a sys.ExitError: %s", id, h)
+				}
+				ob = append(ob, obs{call: h.Call, ret: h.Ret, closed: true, hasCode: true, code: h.Res.Exit, desc: h.String()})
 			case kIsClosed:
 				ob = append(ob, obs{call: h.Call, ret: h.Ret, closed: h.Res.Closed, desc: h.String()})
 			case kCall:
@@ -712,7 +755,7 @@ func quiescence(hist []HOp, counts []attemptCounts) (string, bool) {
 // judge applies all oracles to a recorded history. kind: "" held, else a class name.
 func judge(hist []HOp, counts []attemptCounts) (kind, msg string) {
 	for _, h := range hist {
-		if h.Res.Panic != "" {
+		if h.Res.Panic != "" || h.Res.Kind == wz.KInternal {
 			return "panic", fmt.Sprintf("a panic escaped the API: %s", h)
 		}
 		if (h.Op.K == kLookup && h.Res.Inst == -2) || h.Target == -2 {
@@ -782,6 +825,11 @@ func excluded(class string) bool {
 //	codecloser-race      C10-codecloser-race: InstantiateModule attaches CodeCloser after the instance
 //	                     was registered. Only the race detector sees it: excluded (race binary)
 //	                     like the code-owning half of closenotifier-race.
+//	deferred-close-race  C10-deferred-close-race: FailIfClosed runs the deferred resource release of a
+//	                     module closed by context-done from every goroutine that observes it,
+//	                     unsynchronised. Excluded: a call with a done context only targets an
+//	                     anonymous instance created by the same goroutine and plain calls never
+//	                     target slots of other goroutines, so that a single goroutine observes it.
 //	wazevo-engine-close-race
 //	                     C10-race-wazevo-engine-close: wazevo compileModule reads
 //	                     engine.sharedFunctions without the engine mutex while engine.Close
@@ -796,6 +844,7 @@ func genConc(t *rapid.T) *ConcCase {
 	probeKnown()
 	c := &ConcCase{Kind: "conc", Engine: rapid.SampledFrom(wz.Engines).Draw(t, "engine"),
 		Procs: rapid.SampledFrom([]int{2, 4, 16}).Draw(t, "gomaxprocs")}
+	c.COD = rapid.IntRange(0, 9).Draw(t, "close-on-context-done") < 3
 	exD, exP, exC := excluded("closenotifier-race"), excluded("compile-during-close"), excluded("engine-close-race")
 	if excluded("wazevo-engine-close-race") && raceMode() && c.Engine == "compiler" {
 		exC = true
@@ -843,6 +892,11 @@ func genConc(t *rapid.T) *ConcCase {
 		o.NoNotif = inThread && !notifOK
 		if !o.NoNotif {
 			o.ND = rapid.SampledFrom([]int{0, 0, 0, 1, 2, 5, 20}).Draw(t, "notifier-delay")
+		}
+		if rapid.IntRange(0, 9).Draw(t, "with-start") >= 7 {
+			// kill_b closes whichever module owns "b" at that moment: sequential programs only
+			o.Start = rapid.SampledFrom([]string{"s_ok", "s_trap", "s_self0", "s_self3", "s_foreign0", "s_foreign5"}).Draw(t, "start")
+			o.DefStart = o.FromBin && rapid.Bool().Draw(t, "as-_start")
 		}
 		if n := o.effName(); exclDupTaint && n != "" {
 			if usedName[n] {
@@ -910,6 +964,14 @@ func genConc(t *rapid.T) *ConcCase {
 	yield := rapid.SampledFrom([]int{0, 0, 0, 0, 1, 1, 2, 3, 4, 10, 40})
 	weights := []string{kInst, kInst, kInst, kInst, kInst, kLookup, kLookup, kLookup, kClose, kClose, kClose, kCloseC, kCloseC,
 		kIsClosed, kIsClosed, kCall, kCall, kCompile, kHostInst, kHostCompile}
+	if c.COD {
+		weights = append(weights, kCallCtx, kCallCtx)
+	}
+	exDC := c.COD && excluded("deferred-close-race")
+	if exDC {
+		evid.Label("excluded-deferred-close-race", 1)
+	}
+	anon := map[int]bool{} // slots of anonymous guest instantiations
 	for ti := 0; ti < nt; ti++ {
 		rcPos, rc2Pos := -1, -1
 		if hasRC && ti == rcThread {
@@ -942,12 +1004,19 @@ func genConc(t *rapid.T) *ConcCase {
 						o = Op{K: k, Name: nameGen.Draw(t, "name")}
 					default: // handle operations
 						pred := isSlotK
-						if (k == kClose || k == kCloseC) && !lookupCloses {
+						if (k == kClose || k == kCloseC || k == kCallCtx) && !lookupCloses {
 							pred = isInstK
 						}
 						// prefer slots that are certainly filled: setup and own earlier operations
 						var cands []int
 						for _, s := range slotsOf(pred) {
+							own := s >= base[ti] && s < gi
+							if exDC && k == kCallCtx && !(own && anon[s]) {
+								continue
+							}
+							if exDC && k == kCall && !own && s >= len(c.Setup) {
+								continue
+							}
 							if s < len(c.Setup) || (s >= base[ti] && s < gi) {
 								cands = append(cands, s, s, s)
 							} else if s < base[ti] || s >= base[ti]+lens[ti] {
@@ -962,6 +1031,9 @@ func genConc(t *rapid.T) *ConcCase {
 						if k == kCloseC {
 							o.Code = uint32(rapid.IntRange(1, 9).Draw(t, "code"))
 						}
+						if k == kCallCtx {
+							o.Var = rapid.IntRange(0, 3).Draw(t, "context-end")
+						}
 					}
 					if ok {
 						break
@@ -973,6 +1045,9 @@ func genConc(t *rapid.T) *ConcCase {
 				}
 			}
 			o.Y = yield.Draw(t, "yield")
+			if o.K == kInst && o.effName() == "" {
+				anon[gi] = true
+			}
 			kinds[gi] = o.K
 			th = append(th, o)
 		}
@@ -1154,12 +1229,23 @@ func concStats(hist []HOp) (nontrivial bool, labels []string) {
 	add(dupLoser, "conc-instantiate-rejected")
 	add(lookupHit, "conc-lookup-hit")
 	add(closeRace, "conc-closes-of-one-instance-overlap")
+	var startAbn, ctxClose bool
+	for _, h := range hist {
+		if sc, _ := selfClosing(h); sc {
+			startAbn = true
+		}
+		if h.Op.K == kCallCtx && h.Target >= 0 {
+			ctxClose = true
+		}
+	}
+	add(startAbn, "conc-start-function-ends-abnormally")
+	add(ctxClose, "conc-call-with-done-context")
 	return
 }
 
 func concKey(c *ConcCase, hist []HOp) uint64 {
 	var sb strings.Builder
-	fmt.Fprintf(&sb, "%s/%d/%+v/%+v", c.Engine, c.Procs, c.Setup, c.Threads)
+	fmt.Fprintf(&sb, "%s/%d/%v/%+v/%+v", c.Engine, c.Procs, c.COD, c.Setup, c.Threads)
 	hs := append([]HOp{}, hist...)
 	sort.Slice(hs, func(i, j int) bool { return hs[i].Call < hs[j].Call })
 	for _, h := range hs {
@@ -1368,6 +1454,31 @@ func probeCompileDuringClose(iter int) (panics int, detail string) {
 	return
 }
 
+// probeDeferredClose: several goroutines use a module at the moment it is closed because the
+// context of running calls ended. Returns the number of runs in which an oracle failed.
+func probeDeferredClose(iter int) (bad int, detail string) {
+	for i := 0; i < iter; i++ {
+		c := &ConcCase{Kind: "conc", Engine: wz.Engines[i%2], Procs: 4, COD: true,
+			Setup: []Op{{K: kInst, Bin: 1, Set: true, Name: "a"}},
+			Threads: [][]Op{
+				{{K: kCallCtx, H: 0, Var: i % 4, Sync: 1}, {K: kCall, H: 0}},
+				{{K: kCallCtx, H: 0, Var: (i / 4) % 4, Sync: 1}, {K: kCall, H: 0}},
+				{{K: kCall, H: 0, Sync: 1}, {K: kCall, H: 0}, {K: kClose, H: 0}},
+			}}
+		res, err := runConc(c)
+		if err != nil {
+			return bad, err.Error()
+		}
+		if kind, msg := judge(res.hist, res.counts); kind != "" {
+			bad++
+			if detail == "" || (strings.Contains(msg, "runtime error") && !strings.Contains(detail, "runtime error")) {
+				detail = msg + "\nengine=" + c.Engine + "; recorded history:\n" + renderHistory(res.hist)
+			}
+		}
+	}
+	return
+}
+
 var probeText = map[string]string{
 	"notifier":   "{InstantiateModule of a pre-compiled module with a CloseNotifier || Runtime.Close}, 300 runs",
 	"codecloser": "{InstantiateWithConfig(bytes) without notifier || Runtime.Close}, 300 runs",
@@ -1460,6 +1571,16 @@ func TestConcFindings(t *testing.T) {
 			evid.Note("C10-closenotifier-race: no lost notification in 3000 runs of the probe")
 		}
 	}
+	if evid.Mine(3) {
+		if n, detail := probeDeferredClose(2000); n > 0 {
+			c := map[string]any{"kind": "probe", "probe": "deferred", "iterations": 2000}
+			if evid.Finding("C10-deferred-close-race", "probe-deferred-close-race", c, "%d of 2000 runs of {two calls ended by context-done || call; Close} on one instance (WithCloseOnContextDone) failed an oracle\n%s", n, detail) {
+				t.Fail()
+			}
+		} else {
+			evid.Note("C10-deferred-close-race: no failure in 2000 runs of the probe")
+		}
+	}
 	if evid.Mine(2) {
 		if p, detail := probeCompileDuringClose(1500); p > 0 {
 			c := map[string]any{"kind": "probe", "probe": "compile", "iterations": 1500}
@@ -1533,6 +1654,8 @@ func TestReplay(t *testing.T) {
 		var detail string
 		if head.Probe == "compile" {
 			lost, detail = probeCompileDuringClose(3000)
+		} else if head.Probe == "deferred" {
+			lost, detail = probeDeferredClose(3000)
 		} else {
 			lost, detail = probeNotifierRace(3000, false)
 		}
